@@ -19,6 +19,7 @@ import (
 	"bytes"
 	"encoding/binary"
 	"fmt"
+	"math"
 
 	opb "github.com/google/gce-tcb-verifier/proto/ovmf"
 	"github.com/google/uuid"
@@ -413,6 +414,11 @@ func TDXMetadataFromBytes(data []byte) (*TDXMetadata, error) {
 	}
 	expected := hdr.SectionCount * SizeofTDXMetdataSection
 	remainder := uint32(len(data) - SizeofTDXMetadataDescriptor)
+	// The section count is untrusted: its byte size must not wrap around 32 bits.
+	if hdr.SectionCount > math.MaxUint32/SizeofTDXMetdataSection {
+		return nil, fmt.Errorf("data too small for expected section count %d: %d bytes remain",
+			hdr.SectionCount, remainder)
+	}
 	if expected > remainder {
 		return nil, fmt.Errorf("data too small for expected section count %d: %d < %d",
 			hdr.SectionCount, remainder, expected)
